@@ -173,6 +173,9 @@ func c18Writer(r *eng.Run, mode int) {
 			return
 		}
 		reused = w
+		if !extsIntact() {
+			r.FailProp("C17", "caller_slice_modified", "Writer.Reset changed the slice of extensions the application had spread into SetExtensions")
+		}
 		applyOptions(reused, cfg2)
 	case 1:
 		// ResetOp keeps destination, state, extensions and flush mode.
@@ -202,6 +205,9 @@ func c18Writer(r *eng.Run, mode int) {
 			r.Failf("reset_differs_from_new", "GetWriter(n=%d) after a PutWriter returned a writer with Size()=%d; a new one for that class (%d) has %d", n2, reused.Size(), class, floor)
 		}
 		_ = poolable
+		if !extsIntact() {
+			r.FailProp("C17", "caller_slice_modified", "PutWriter/GetWriter changed the slice of extensions the application had spread into SetExtensions")
+		}
 		applyOptions(reused, cfg2)
 	}
 	cfg2.Size = rawLen(r, reused)
